@@ -27,6 +27,9 @@ var curated = []struct {
 	{1, "N0f;S0,d0"},
 	{1, "N0f;S0,d0;N0o,d0"},
 	{1, "N0f;S0,d0;S0,d0"},
+	{1, "N0f;S0,d0;N0f"},
+	{1, "N0f,N0f;S0,d0"},
+	{1, "N0f;G;S0,d0"},
 	{1, "N0o,d0;R0;R0"},
 	{1, "N0o,d0;N0o,d0;R0"},
 	{1, "N0f;R0;N0o,d0"},
